@@ -48,7 +48,7 @@ type ecase struct {
 	Kind     string     `json:"kind"`
 	Layout   []seg      `json:"layout"`
 	Type     string     `json:"type"`
-	Bias     uint64     `json:"bias"`
+	Bias     int64      `json:"bias"` // may be negative: an object loaded below its link-time address
 	MapStart uint64     `json:"mapstart"`
 	MapLimit uint64     `json:"maplimit"`
 	MapOff   uint64     `json:"mapoff"`
@@ -107,8 +107,13 @@ func elfCase(raw json.RawMessage, c *ecase, idx int) {
 	defer os.Remove(path)
 	// ET_DYN: the real load bias is large; the relative geometry is what the specification enumerates
 	var shift uint64
-	if c.Type == "DYN" && (idx+int(run.Seed))%2 == 0 {
-		shift = 0x7f1200000000
+	if c.Type == "DYN" {
+		switch (idx + int(run.Seed)) % 3 {
+		case 0:
+			shift = 0x7f1200000000 // x86-64 style
+		case 1:
+			shift = 0xffff9c000000 // above 2^47: 48-bit virtual addresses (arm64), still user space
+		}
 	}
 	sort.Slice(c.Addrs, func(i, j int) bool { return c.Addrs[i].X < c.Addrs[j].X })
 	orders := [][]addrCase{c.Addrs}
@@ -126,13 +131,13 @@ func elfCase(raw json.RawMessage, c *ecase, idx int) {
 		}
 		for _, a := range order {
 			got, err := f.ObjAddr(a.X + shift)
-			key := fmt.Sprintf("%s|%d|%d|%d|%d", c.Type, len(c.Layout), c.MapStart-c.Bias, c.MapLimit-c.Bias, a.Want)
+			key := fmt.Sprintf("%s|%d|%d|%d|%d", c.Type, len(c.Layout), c.MapStart-uint64(c.Bias), c.MapLimit-uint64(c.Bias), a.Want)
 			run.Count(key)
 			switch {
 			case err != nil && a.Unique:
 				run.Violate("elf", sigOf(c, "error-although-unique"), fmt.Sprintf("order %d: ObjAddr(%#x) failed although exactly one segment backs the address: %v", oi, a.X+shift, err), raw, nil)
 			case err == nil && got != a.Want:
-				run.Violate("elf", sigOf(c, "wrong-address"), fmt.Sprintf("order %d: ObjAddr(%#x) = %#x, the loader put link address %#x there (bias %#x)", oi, a.X+shift, got, a.Want, c.Bias+shift), raw, nil)
+				run.Violate("elf", sigOf(c, "wrong-address"), fmt.Sprintf("order %d: ObjAddr(%#x) = %#x, the loader put link address %#x there (bias %#x)", oi, a.X+shift, got, a.Want, uint64(c.Bias)+shift), raw, nil)
 			}
 		}
 		f.Close()
@@ -157,11 +162,11 @@ func elfCase(raw json.RawMessage, c *ecase, idx int) {
 			typ = elf.ET_DYN
 		}
 		base, err := elfexec.GetBase(&elf.FileHeader{Type: typ}, &phdrs[k], nil, c.MapStart+shift, c.MapLimit+shift, c.MapOff)
-		run.Count(fmt.Sprintf("getbase|%s|%d|%d|%d", c.Type, len(c.Layout), c.MapStart-c.Bias, c.MapOff))
+		run.Count(fmt.Sprintf("getbase|%s|%d|%d|%d", c.Type, len(c.Layout), c.MapStart-uint64(c.Bias), c.MapOff))
 		if err != nil {
 			run.Violate("elf", sigOf(c, "getbase-error"), err.Error(), raw, nil)
-		} else if base != c.Bias+shift {
-			run.Violate("elf", sigOf(c, "getbase-not-bias"), fmt.Sprintf("GetBase(start=%#x, offset=%#x, segment off=%#x vaddr=%#x) = %#x, the load bias is %#x", c.MapStart+shift, c.MapOff, s.Off, s.Vaddr, base, c.Bias+shift), raw, nil)
+		} else if base != uint64(c.Bias)+shift {
+			run.Violate("elf", sigOf(c, "getbase-not-bias"), fmt.Sprintf("GetBase(start=%#x, offset=%#x, segment off=%#x vaddr=%#x) = %#x, the load bias is %#x", c.MapStart+shift, c.MapOff, s.Off, s.Vaddr, base, uint64(c.Bias)+shift), raw, nil)
 		}
 	}
 	hs := elfexec.ProgramHeadersForMapping(phdrs, c.MapOff, c.MapLimit-c.MapStart)
